@@ -70,10 +70,13 @@ class NixSourceCode:
         self.source_path = source_path
 
     @classmethod
-    def from_cst(cls, node: Node) -> NixSourceCode:
+    def from_cst(cls, node: Node, source_bytes: bytes | None = None) -> NixSourceCode:
         """Build a source wrapper that keeps trivia for round-trip fidelity."""
         if node.text is None:
             raise ValueError("Missing source text")
+        # The root node starts at the first token; only the parser input has
+        # the leading whitespace that error pass-through must keep.
+        raw_bytes = source_bytes if source_bytes is not None else node.text
         source_bytes = node.text
 
         contains_error = False
@@ -92,7 +95,7 @@ class NixSourceCode:
 
         if contains_error:
             # Preserve the raw text so round-tripping doesn't lose information.
-            raw_text = source_bytes.decode()
+            raw_text = raw_bytes.decode()
             return cls(
                 node=node,
                 expressions=[RawExpression(text=raw_text)],
